@@ -207,6 +207,16 @@ func c11Histories(req c11Req, o *ref.Oracle, resp *drv.Response, rng *rand.Rand)
 					ch.ObserveElement(v(op.Syms[0]))
 				case "ext":
 					ch.ObserveExtensionElement(gl.QuadraticExtensionVariable{v(op.Syms[0]), v(op.Syms[1])})
+				case "elements":
+					es := make([]gl.Variable, len(op.Syms))
+					for i := range es {
+						es[i] = v(op.Syms[i])
+					}
+					ch.ObserveElements(es)
+					if len(es) == 0 { // the other list observers on an empty list
+						ch.ObserveCap(nil)
+						ch.ObserveExtensionElements(nil)
+					}
 				case "hash":
 					ch.ObserveHash(poseidon.GoldilocksHashOut{v(op.Syms[0]), v(op.Syms[1]), v(op.Syms[2]), v(op.Syms[3])})
 				case "bnhash":
